@@ -385,8 +385,8 @@ class Stmts(FnCtx):
         inits = ks[1:-1]
         lw = self.lw
         lw.lambda_count += 1
-        b = rec.get('loc', {})
-        cname = 'closure_%s_%d' % (self.f.cname, lw.lambda_count)
+        self.lambda_n = getattr(self, 'lambda_n', 0) + 1
+        cname = 'closure_%s_%d' % (self.f.cname, self.lambda_n)
         qual = qt(n)
         r = Record(rec, qual)
         r.cname = cname
